@@ -261,6 +261,40 @@ func runCKKSPoly(c *eng.Ctx, cfg pcfg) {
 				return ckpoly.NewEvaluator(p, ev).Evaluate(in, poly, p.DefaultScale())
 			})
 	}
+	// one polynomial evaluator reused for polynomial vectors with different slot mappings: the second result
+	// must be the one a fresh polynomial evaluator gives (no residue of the first mapping in its buffers)
+	{
+		api, variant := "polynomial.Evaluator.Evaluate", "ckks/vector-after-vector"
+		slots := p.MaxSlots()
+		all := make([]int, slots)
+		for i := range all {
+			all[i] = i
+		}
+		pa := bignum.NewPolynomial(bignum.Monomial, []complex128{0.1, 0.5, -0.25, 0.125}, nil)
+		pb := bignum.NewPolynomial(bignum.Monomial, []complex128{-0.3, 0.2, 0.4, -0.1}, nil)
+		v1, e1 := ckpoly.NewPolynomialVector([]bignum.Polynomial{pa}, map[int][]int{0: all})
+		v2, e2 := ckpoly.NewPolynomialVector([]bignum.Polynomial{pb}, map[int][]int{0: all[:max(1, min(8, slots/2))]})
+		if e1 == nil && e2 == nil {
+			a := e.ct(p.MaxLevel(), "", 1)
+			t.distinct(api, "hist-polyeval", "ct", variant, true)
+			var o0, o1 *rlwe.Ciphertext
+			okF := protect(func() (err error) {
+				o0, err = ckpoly.NewEvaluator(p, s.newEval()).Evaluate(copyCt(a), v2, p.DefaultScale())
+				return
+			}).ok()
+			used := ckpoly.NewEvaluator(p, s.newEval())
+			okU := protect(func() (err error) {
+				if _, err = used.Evaluate(copyCt(a), v1, p.DefaultScale()); err != nil {
+					return
+				}
+				o1, err = used.Evaluate(copyCt(a), v2, p.DefaultScale())
+				return
+			}).ok()
+			if okF && okU && o0 != nil && o1 != nil {
+				t.same(api, "history-polynomial-evaluator", variant, api+" vector (8 slots) after vector (all slots) on one polynomial evaluator", canonCt(s.rq, o0), canonCt(s.rq, o1))
+			}
+		}
+	}
 }
 
 func runBGVPoly(c *eng.Ctx, cfg pcfg) {
@@ -287,5 +321,35 @@ func runBGVPoly(c *eng.Ctx, cfg pcfg) {
 			func(ev *bgv.Evaluator, in *rlwe.Ciphertext) (*rlwe.Ciphertext, error) {
 				return bgvpoly.NewEvaluator(p, ev).Evaluate(in, poly, p.DefaultScale())
 			})
+	}
+	{
+		api, variant := "polynomial.Evaluator.Evaluate", s.name+"/vector-after-vector"
+		slots := p.MaxSlots()
+		all := make([]int, slots)
+		for i := range all {
+			all[i] = i
+		}
+		v1, e1 := bgvpoly.NewPolynomialVector([][]uint64{{3, 1, 4, 1}}, map[int][]int{0: all})
+		v2, e2 := bgvpoly.NewPolynomialVector([][]uint64{{2, 7, 1, 8}}, map[int][]int{0: all[:max(1, min(8, slots/2))]})
+		if e1 == nil && e2 == nil {
+			a := e.ct(p.MaxLevel(), 1, 1)
+			t.distinct(api, "hist-polyeval", "ct", variant, true)
+			var o0, o1 *rlwe.Ciphertext
+			okF := protect(func() (err error) {
+				o0, err = bgvpoly.NewEvaluator(p, s.newEval()).Evaluate(copyCt(a), v2, p.DefaultScale())
+				return
+			}).ok()
+			used := bgvpoly.NewEvaluator(p, s.newEval())
+			okU := protect(func() (err error) {
+				if _, err = used.Evaluate(copyCt(a), v1, p.DefaultScale()); err != nil {
+					return
+				}
+				o1, err = used.Evaluate(copyCt(a), v2, p.DefaultScale())
+				return
+			}).ok()
+			if okF && okU && o0 != nil && o1 != nil {
+				t.same(api, "history-polynomial-evaluator", variant, api+" vector (8 slots) after vector (all slots) on one polynomial evaluator", canonCt(s.rq, o0), canonCt(s.rq, o1))
+			}
+		}
 	}
 }
